@@ -8,7 +8,8 @@ import (
 
 func TestVerifReplay(t *testing.T) {
 	vrt.RunReplay(t, map[string]func(){
-		"VerifC09Quick":    VerifC09Quick,
-		"VerifC09Thorough": VerifC09Thorough,
+		"VerifC09Quick":      VerifC09Quick,
+		"VerifC09Thorough":   VerifC09Thorough,
+		"VerifC11RuleChange": VerifC11RuleChange,
 	})
 }
